@@ -392,19 +392,38 @@ def unescape_json_string(s: str) -> str:
 
 
 def split_function_test(function_test: str) -> list[str]:
+    """
+    Returns the sequence types of the parameters followed by the return type of a
+    normalized function test, `['*']` for `function(*)` and `[]` if the argument is
+    not a function test. The parameter list is split by nesting depth: commas and
+    ') as ' inside a parameter type (map(K, V), element(N, T), function(A) as R)
+    belong to that type.
+    """
     if not function_test.startswith('function('):
         return []
     elif function_test == 'function(*)':
         return ['*']
 
-    parts = function_test[9:].partition(') as ')
-    if parts[0]:
-        sequence_types = parts[0].split(', ')
-        sequence_types.append(parts[2])
-    else:
-        sequence_types = [parts[2]]
-
-    return sequence_types
+    sequence_types = []
+    depth, start = 0, 9
+    for k in range(9, len(function_test)):
+        ch = function_test[k]
+        if ch == '(':
+            depth += 1
+        elif ch == ')':
+            if depth:
+                depth -= 1
+                continue
+            if k > start:
+                sequence_types.append(function_test[start:k])
+            if function_test[k + 1:k + 5] != ' as ':
+                return []
+            sequence_types.append(function_test[k + 5:])
+            return sequence_types
+        elif ch == ',' and not depth and function_test[k + 1:k + 2] == ' ':
+            sequence_types.append(function_test[start:k])
+            start = k + 2
+    return []
 
 
 def is_absolute_uri(uri: str) -> bool:
